@@ -10,9 +10,10 @@ CONSTANTS MaxLen, Alphabet
 VARIABLES s, known            \* known = s is an input construct on which the pre-fix design was wrong
 vars == <<s, known>>
 Init == s = <<>> /\ known = FALSE
-Next == Len(s) < MaxLen /\ \E c \in Alphabet : s' = Append(s, c) /\ known' = Known(Append(s, c))
+Next == Len(s) < MaxLen /\ \E c \in Alphabet : s' = Append(s, c) /\ known' = Known(s')
 Spec == Init /\ [][Next]_vars
-NextSim == Len(s) < MaxLen /\ LET c == RandomElement(Alphabet) IN s' = Append(s, c) /\ known' = Known(Append(s, c))
+\* (RandomElement must be mentioned once: TLC re-evaluates a LET definition at every mention, two mentions are two draws)
+NextSim == Len(s) < MaxLen /\ s' = Append(s, RandomElement(Alphabet)) /\ known' = Known(s')
 SpecSim == Init /\ [][NextSim]_vars
 
 (* design models of the helper (MtMachine): the transcription of the current code satisfies the relation on
